@@ -62,9 +62,31 @@ pub struct C05Scn {
 	pub max_disconnects: u32,
 	pub force: bool,
 	pub tamper: bool,
+	/// restart scenario: the recipient persists asynchronously and may crash at any point, restarting
+	/// from any admissible on-disk monitor
+	pub restart: bool,
 }
 
 pub fn build(s: &C05Scn) -> WorldSys {
+	if s.restart {
+		let (w, chans) = crate::checks::c09::line_world(s.ct, 2, &[1]);
+		let infos = chan_infos(&w, &chans);
+		let rev = RevocationOracle::new(&w, infos.clone());
+		let po = crate::oracles::PersistOrderOracle::new(&w, infos.clone());
+		let mut sys = WorldSys::new(w, chans, s.ops.clone());
+		sys.ops_first = s.ops_first;
+		sys.dev = s.dev.clone();
+		sys.crash_nodes = vec![1];
+		sys.async_on[1] = true;
+		sys.settle_on_chain = true;
+		sys.oracles.push(Box::new(crate::checks::c10::CrashOracle::new(infos.clone())));
+		sys.oracles.push(Box::new(po));
+		sys.oracles.push(Box::new(CommitmentOracle::new(infos)));
+		sys.oracles.push(Box::new(rev));
+		sys.oracles.push(Box::new(TxValidityOracle::new()));
+		sys.w.obs_cursor = sys.w.obs.len();
+		return sys;
+	}
 	let (w, chans) = two_node_world(s.ct, 253);
 	let infos = chan_infos(&w, &chans);
 	let rev = RevocationOracle::new(&w, infos.clone());
@@ -110,6 +132,7 @@ pub fn scenarios(tier: Tier) -> Vec<C05Scn> {
 			max_disconnects: 0,
 			force: false,
 			tamper: false,
+			restart: false,
 		});
 		v.push(C05Scn {
 			name: format!("{}-disconnect", n),
@@ -121,6 +144,7 @@ pub fn scenarios(tier: Tier) -> Vec<C05Scn> {
 			max_disconnects: if tier.is_thorough() { 2 } else { 1 },
 			force: false,
 			tamper: false,
+			restart: false,
 		});
 		// user force-close at every point of the flow (the operation is issued early as a deviation)
 		for closer in [0usize, 1] {
@@ -138,6 +162,22 @@ pub fn scenarios(tier: Tier) -> Vec<C05Scn> {
 				max_disconnects: 0,
 				force: true,
 				tamper: false,
+				restart: false,
+			});
+		}
+		// restart from every admissible persisted state with asynchronous monitor writes in flight
+		if ct == Ct::Static {
+			v.push(C05Scn {
+				name: format!("{}-restart-async", n),
+				ct,
+				ops: vec![send(0, 1, 50_000_000, ClaimPolicy::Claim), send(1, 0, 20_000_000, ClaimPolicy::Claim)],
+				ops_first: true,
+				dev: Deviations { reorder: None, early_op: None, crash: Some(1), complete_reorder: Some(1), ..Deviations::default() },
+				k: if tier.is_thorough() { 2 } else { 1 },
+				max_disconnects: 0,
+				force: false,
+				tamper: false,
+				restart: true,
 			});
 		}
 		// corrupted revoke_and_ack at every RAA of the flow
@@ -151,6 +191,7 @@ pub fn scenarios(tier: Tier) -> Vec<C05Scn> {
 			max_disconnects: 0,
 			force: false,
 			tamper: true,
+			restart: false,
 		});
 	}
 	v
